@@ -61,6 +61,10 @@ func (d *PathDecoder) linksInBody(body *hclsyntax.Body, bodySchema *schema.BodyS
 					})
 				}
 				for _, attrDep := range dk.Attributes {
+					if _, ok := block.Body.Attributes[attrDep.Name]; !ok {
+						// dependency key resolved from a default value
+						continue
+					}
 					links = append(links, lang.Link{
 						URI:     u.String(),
 						Tooltip: link.Tooltip,
